@@ -1888,6 +1888,12 @@ class GramStack(Stack):
             blockeds = [] # will always be empty since only once
             if self.txPkts:
                 self._serviceOneTxPkt(laters, blockeds)
+            if laters:  # blocked: defer that destination's other packets too, keep sequential
+                ha = laters[0][1]
+                laters.extend([duple for duple in self.txPkts if duple[1] == ha])
+                others = [duple for duple in self.txPkts if duple[1] != ha]
+                self.txPkts.clear()
+                self.txPkts.extend(others)
             while laters:
                 self.txPkts.append(laters.popleft())
 
